@@ -41,10 +41,11 @@ pub fn run(input: &Value) -> Case {
     let (r, gg, b) = (g(0), g(1), g(2));
     let color = RGBA::new(r, gg, b, 255);
     let caps = TerminalCaps { depth: depth_of(&depth), glyphs: false, kitty_keyboard: false };
+    // three different colours for the three roles: fg = c, bg = rot c, underline = rot (rot c)
     let cmd = TerminalCommand::FaceModify(FaceModify {
         fg: Some(color),
-        bg: Some(color),
-        underline_color: Some(color),
+        bg: Some(RGBA::new(gg, b, r, 255)),
+        underline_color: Some(RGBA::new(b, r, gg, 255)),
         ..FaceModify::default()
     });
     let out = encode_bytes(&caps, cmd);
@@ -82,12 +83,17 @@ pub fn generate(rng: &mut Rng, n: usize, tier: &str) -> Vec<Value> {
     let fixed: &[(u64, u64)] = if thorough {
         &[(0, 0), (255, 255), (95, 135), (175, 215), (128, 128), (40, 200), (8, 238)]
     } else {
-        &[(0, 0), (255, 255), (95, 175)]
+        &[(0, 0), (95, 175)]
     };
+    // (each 256-colour case costs ~0.1 s in Coq: three roles x brute force over 240 entries in exact
+    //  47-bit arithmetic; the exhaustive sweep in Rust covers every colour, so the sample here is small)
     for depth in ["256", "gray"] {
         for x in 0..256u64 {
             for (p, q) in fixed {
-                if depth == "gray" && (*p, *q) != (0, 0) && (*p, *q) != (255, 255) {
+                if depth == "gray" && (*p, *q) != (0, 0) {
+                    continue;
+                }
+                if depth == "256" && !thorough && x % 2 == 1 {
                     continue;
                 }
                 push(depth, "sweep", x, *p, *q, &mut v);
@@ -96,8 +102,10 @@ pub fn generate(rng: &mut Rng, n: usize, tier: &str) -> Vec<Value> {
             }
             // the grey diagonal and its neighbourhood (cube-versus-grey decision, grey thresholds)
             push(depth, "diag", x, x, x, &mut v);
-            push(depth, "diag", x, x + 1, x, &mut v);
-            push(depth, "diag", x + 2, x, x + 1, &mut v);
+            if thorough || depth == "gray" {
+                push(depth, "diag", x, x + 1, x, &mut v);
+                push(depth, "diag", x + 2, x, x + 1, &mut v);
+            }
             push(depth, "diag", x, x, x + 3, &mut v);
         }
     }
@@ -110,7 +118,7 @@ pub fn generate(rng: &mut Rng, n: usize, tier: &str) -> Vec<Value> {
     while v.len() < fixed_n + n {
         let depth = match rng.below(10) {
             0 => "true",
-            1 | 2 => "gray",
+            1..=4 => "gray",
             _ => "256",
         };
         let near_grey = rng.chance(1, 4);
